@@ -50,6 +50,9 @@ pub struct Scenario {
     pub second_entry: usize,
     /// module index -> 1 fetch error, 2 parse error
     pub faults: BTreeMap<usize, u8>,
+    /// module index -> the fault hits only the first k requests (absent = permanent)
+    #[serde(default)]
+    pub fault_times: BTreeMap<usize, u32>,
     pub scheds: Vec<Sched>,
 }
 
@@ -132,11 +135,18 @@ pub fn generate(rng: &mut Rng, tier: Tier) -> Value {
     let mut faults = BTreeMap::new();
     let entry = rng.idx(n);
     let second_entry = rng.idx(n);
-    if rng.chance(1, 6) {
+    let mut fault_times = BTreeMap::new();
+    if rng.chance(1, 4) {
         // the entry modules are handed to the engine by the host itself, never fetched
-        let f = rng.idx(n);
-        if f != entry && f != second_entry {
-            faults.insert(f, rng.range(1, 2) as u8);
+        for _ in 0..rng.range(1, 2) {
+            let f = rng.idx(n);
+            if f != entry && f != second_entry {
+                faults.insert(f, rng.range(1, 2) as u8);
+                if rng.chance(1, 2) {
+                    // transient: a later load of the same graph gets through
+                    fault_times.insert(f, rng.range(1, 2) as u32);
+                }
+            }
         }
     }
     let ns = if tier == Tier::Quick { 3 } else { 5 };
@@ -147,7 +157,7 @@ pub fn generate(rng: &mut Rng, tier: Tier) -> Value {
             sim_exec: s != 1,
         })
         .collect();
-    let sc = Scenario { mods, entry, second_entry, faults, scheds };
+    let sc = Scenario { mods, entry, second_entry, faults, fault_times, scheds };
     serde_json::to_value(sc).expect("ser")
 }
 
@@ -299,6 +309,9 @@ fn promise_outcome(p: &JsPromise, ctx: &mut Context) -> String {
 
 struct Out {
     phases: Vec<(Vec<String>, String)>,
+    /// entry module and loader events of each phase
+    phase_entry: Vec<usize>,
+    phase_calls: Vec<Vec<LoaderEv>>,
     calls: Vec<LoaderEv>,
     problems: Vec<(String, String)>,
     delays: u64,
@@ -330,10 +343,14 @@ fn run_sched(sc: &Scenario, s: &Sched) -> Out {
         loader.sources.borrow_mut().insert(format!("m{i}"), render(i, m));
         loader.plans.borrow_mut().insert(
             format!("m{i}"),
-            LoadPlan { latency: s.latencies.get(i).copied().unwrap_or(0), fault: sc.faults.get(&i).copied().unwrap_or(0) },
+            LoadPlan {
+                latency: s.latencies.get(i).copied().unwrap_or(0),
+                fault: sc.faults.get(&i).copied().unwrap_or(0),
+                fault_times: sc.fault_times.get(&i).copied().unwrap_or(0),
+            },
         );
     }
-    let mut out = Out { phases: vec![], calls: vec![], problems: vec![], delays: 0, fetch_errors: 0, parse_errors: 0, reorders: 0, polls: 0, turns: 0 };
+    let mut out = Out { phases: vec![], phase_entry: vec![], phase_calls: vec![], calls: vec![], problems: vec![], delays: 0, fetch_errors: 0, parse_errors: 0, reorders: 0, polls: 0, turns: 0 };
     let sim = if s.sim_exec {
         let e = Rc::new(SimExecutor::default());
         *e.poll_order.borrow_mut() = s.poll_order.iter().copied().collect();
@@ -345,8 +362,14 @@ fn run_sched(sc: &Scenario, s: &Sched) -> Out {
         Some(e) => js::new_context::<SimExecutor, SimLoader>(Some(e.clone()), Some(loader.clone())),
         None => js::new_context::<Recording, SimLoader>(Some(Rc::new(Recording::default())), Some(loader.clone())),
     };
-    // phases: evaluate entry, evaluate it again, evaluate the second entry
-    for (phase, e) in [(0, sc.entry), (1, sc.entry), (2, sc.second_entry)] {
+    // phases: evaluate entry, evaluate it again, evaluate the second entry; with loader faults the
+    // host keeps retrying (a transient fault lets a later attempt through)
+    let mut plan = vec![(0, sc.entry), (1, sc.entry), (2, sc.second_entry)];
+    if !sc.faults.is_empty() {
+        plan.extend([(3, sc.entry), (4, sc.second_entry), (5, sc.entry)]);
+    }
+    for (phase, e) in plan {
+        let log_from = loader.log.borrow().len();
         let outcome = match loader.get_or_parse(&format!("m{e}"), &mut ctx) {
             Err(err) => format!("rejected:{}", js::error_string(&err, &mut ctx)),
             Ok(m) => {
@@ -358,6 +381,8 @@ fn run_sched(sc: &Scenario, s: &Sched) -> Out {
             }
         };
         out.phases.push((host.trace.take(), outcome));
+        out.phase_entry.push(e);
+        out.phase_calls.push(loader.log.borrow()[log_from..].to_vec());
     }
     out.calls = loader.log.borrow().clone();
     out.delays = loader.delays_fired.get();
@@ -445,22 +470,59 @@ pub fn execute(v: &Value) -> RunReport {
                 }
             }
         }
-        // re-evaluation runs nothing and returns the recorded outcome
+        // re-evaluation runs nothing and returns the recorded outcome. A phase whose loading
+        // failed recorded nothing (the host may retry); every other outcome is final.
+        let load_failed: Vec<bool> =
+            o.phase_calls.iter().map(|c| c.iter().any(|e| matches!(e, LoaderEv::Done { ok: false, .. }))).collect();
         if !any_dynamic {
-            if !o.phases[1].0.is_empty() {
-                rep.violate("re-evaluation-ran-code", format!("{tag}: second evaluation of the entry printed {:?}", o.phases[1].0));
+            for j in 1..o.phases.len() {
+                let Some(i) = (0..j).rev().find(|i| o.phase_entry[*i] == o.phase_entry[j] && !load_failed[*i] && o.phases[*i].1 != "pending") else {
+                    continue;
+                };
+                if !o.phases[j].0.is_empty() {
+                    rep.violate("re-evaluation-ran-code", format!("{tag}: phase {j} evaluates m{} again (phase {i} ended {:?}) and printed {:?}", o.phase_entry[j], o.phases[i].1, o.phases[j].0));
+                }
+                if o.phases[j].1 != o.phases[i].1 {
+                    rep.violate("re-evaluation-outcome", format!("{tag}: m{}: phase {i} {:?}, phase {j} {:?}", o.phase_entry[j], o.phases[i].1, o.phases[j].1));
+                }
             }
-            if o.phases[1].1 != o.phases[0].1 && !fault_reach1 {
-                rep.violate("re-evaluation-outcome", format!("{tag}: first {:?}, again {:?}", o.phases[0].1, o.phases[1].1));
+            // a phase that failed to load runs nothing; a fulfilled phase has run every module
+            // its entry reaches
+            for (j, (tr, outcome)) in o.phases.iter().enumerate() {
+                if load_failed[j] && !starts(tr).is_empty() {
+                    rep.violate("evaluated-despite-load-failure", format!("{tag}: phase {j}: modules started although loading failed: {tr:?}"));
+                }
+                if outcome == "fulfilled" {
+                    let done: BTreeSet<usize> = o.phases[..=j].iter().flat_map(|p| p.0.iter()).filter_map(|l| l.strip_prefix("end m").and_then(|n| n.parse().ok())).collect();
+                    for m in reachable_from(&sc, o.phase_entry[j]) {
+                        if !done.contains(&m) {
+                            rep.violate("fulfilled-before-dependency-ran", format!("{tag}: phase {j} (entry m{}) fulfilled although m{m} never finished; trace {all:?}", o.phase_entry[j]));
+                        }
+                    }
+                }
             }
         }
-        // loader: at most one request per (referrer, specifier)
-        let mut pairs = BTreeSet::new();
-        for c in &o.calls {
-            if let LoaderEv::Call { referrer, specifier } = c {
-                let faulty = specifier.strip_prefix('m').and_then(|n| n.parse::<usize>().ok()).is_some_and(|i| sc.faults.contains_key(&i));
-                if !pairs.insert((referrer.clone(), specifier.clone())) && !faulty && !any_fault && !any_dynamic {
-                    rep.violate("loader-asked-twice", format!("{tag}: ({referrer}, {specifier}) requested more than once: {:?}", o.calls));
+        // loader: a (referrer, specifier) pair that was answered with a module is never requested
+        // again ([[LoadedModules]] records it whatever happened to the rest of the load); only a
+        // pair whose request failed may be retried by a later load
+        if !any_dynamic {
+            let mut answered = BTreeSet::new();
+            let mut in_flight = BTreeSet::new();
+            for c in &o.calls {
+                match c {
+                    LoaderEv::Call { referrer, specifier } => {
+                        let pair = (referrer.clone(), specifier.clone());
+                        if answered.contains(&pair) || !in_flight.insert(pair) {
+                            rep.violate("loader-asked-twice", format!("{tag}: ({referrer}, {specifier}) requested again although it was answered or is in flight: {:?}", o.calls));
+                        }
+                    }
+                    LoaderEv::Done { referrer, specifier, ok } => {
+                        let pair = (referrer.clone(), specifier.clone());
+                        in_flight.remove(&pair);
+                        if *ok {
+                            answered.insert(pair);
+                        }
+                    }
                 }
             }
         }
@@ -471,9 +533,6 @@ pub fn execute(v: &Value) -> RunReport {
             let rejected = o.phases[0].1.starts_with("rejected:");
             if o.phases[0].1 != "pending" && must_reject != rejected {
                 rep.violate("error-propagation", format!("{tag}: reachable thrower/fault = {must_reject}, entry promise {:?}; trace {all:?}", o.phases[0].1));
-            }
-            if fault_reach1 && !starts(&o.phases[0].0).is_empty() {
-                rep.violate("evaluated-despite-load-failure", format!("{tag}: modules started although loading failed: {:?}", o.phases[0].0));
             }
             if rejected && !fault_reach1 {
                 let msg = o.phases[0].1.trim_start_matches("rejected:");
@@ -622,7 +681,7 @@ pub const PROP: Prop = Prop {
     generate,
     execute,
     shrink,
-    rule: "one run = one directed module graph over 1..6 (quick) / 1..8 (thorough) modules (seeded edges biased to cycles, self-imports and shared leaves; named, namespace, bare, re-export and export-star imports; optional top-level await of three kinds; optional throw before/after the awaits; optional dynamic import(); an injected fetch or parse error in 1 run of 6), an entry module, a re-evaluation of it and a second entry, executed under 3 (quick) / 5 (thorough) loader schedules (latency 0..5 polls per request, seeded poll order of pending load jobs) on the stub executor and on the real SimpleJobExecutor; non-trivial = a loader delay, poll reorder, loader fault or module throw fired; distinct = distinct (graph shape signature, latencies, delays and reorders fired)",
+    rule: "one run = one directed module graph over 1..6 (quick) / 1..8 (thorough) modules (seeded edges biased to cycles, self-imports and shared leaves; named, namespace, bare, re-export and export-star imports; optional top-level await of three kinds; optional throw before/after the awaits; optional dynamic import(); injected fetch or parse errors on 1..2 modules in 1 run of 4, permanent or hitting only the first 1..2 requests), an entry module, a re-evaluation of it and a second entry (with faults: three further attempts, so that a load that failed is retried and, once the transient faults are used up, gets through), executed under 3 (quick) / 5 (thorough) loader schedules (latency 0..5 polls per request, seeded poll order of pending load jobs) on the stub executor and on the real SimpleJobExecutor; non-trivial = a loader delay, poll reorder, loader fault or module throw fired; distinct = distinct (graph shape signature, latencies, delays and reorders fired)",
     real: &["module records: parse, load, link, evaluate incl. async evaluation and cycles", "namespace objects, live bindings", "SimpleJobExecutor in one schedule per run", "Module::parse (called by the stub loader)"],
     stub: &["SimLoader (host side of the ModuleLoader seam: latency, completion order, fetch/parse faults)", "SimExecutor (seeded poll order of pending load jobs)", "reference model of InnerModuleEvaluation for synchronous graphs"],
     assumptions: &[
